@@ -7,6 +7,8 @@ HERE=$(cd "$(dirname "$0")/.." && pwd)
 n=0; det=0; und=""; list=""
 for p in "$HERE"/selftest/mutants/"$ID"-*.patch "$HERE"/seeded/"$ID"-*/patch.diff; do
   [ -f "$p" ] || continue
+  # a seeded change whose own demo passes on the repaired tree (a later fix: commit made it harmless) is kept for the record only
+  [ -f "$(dirname "$p")/OBSOLETE" ] && continue
   n=$((n+1))
   name=$(echo "$p" | sed "s#$HERE/##")
   res=$("$HERE/tools/mutant.sh" "$p" "$ID" 2>&1)
